@@ -41,7 +41,10 @@ Member(n, t, m, cap, vb, vs, js, pb, ps, jp, seed, label, rng) ==
              commit |-> "same", cj |-> 0]]
 Plain(n, t, m, cap, seed) == Member(n, t, m, cap, "mid", "mid", 0, "none", "none", 0, seed, 0, "chacha")
 
-Scen(members, mode, skew, viabytes) == [members |-> members, mode |-> mode, skew |-> skew, viabytes |-> viabytes]
+\* `fill`: for batches, a valid member of the batch's shared (n, t) the harness may insert between the members of a
+\* model chunk to bring it to the real chunk size (DESIGN C03); empty otherwise
+ScenF(members, mode, skew, viabytes, fill) == [members |-> members, mode |-> mode, skew |-> skew, viabytes |-> viabytes, fill |-> fill]
+Scen(members, mode, skew, viabytes) == ScenF(members, mode, skew, viabytes, <<>>)
 One(mb, mode) == Scen(<<mb>>, mode, <<0, 0, 0>>, FALSE)
 Modes == {"VerifyOnly", "RecoverAndVerify", "RecoverOnly"}
 NoSkew == <<0, 0, 0>>
@@ -99,7 +102,7 @@ VChanges(mb) ==
   \cup { [mb.v EXCEPT !.commit = "swap", !.cj = j] : j \in 1..(mb.m - 1) }
   \cup { [mb.v EXCEPT !.n = nn] : nn \in AllN \ {mb.n} }
   \cup { [mb.v EXCEPT !.cap = cc] : cc \in {c \in {1, 2, 4, 8, 16} : c >= mb.m} }
-  \cup { [mb.v EXCEPT !.seed = s] : s \in {0, 1, 2} }
+  \cup { [mb.v EXCEPT !.seed = s] : s \in (IF mb.m = 1 THEN {0, 1, 2} ELSE {0}) }
 Bases == IF Quick THEN { <<4, 1, 1, 1, 1>>, <<8, 2, 2, 2, 0>>, <<64, 3, 1, 2, 0>>, <<2, 6, 4, 4, 0>> }
          ELSE { <<n, t, mc[1], mc[2], IF mc[1] = 1 THEN 1 ELSE 0>> : n \in {2, 8, 64}, t \in {1, 2, 3, 6}, mc \in {<<1,1>>, <<1,2>>, <<2,2>>, <<4,8>>} }
 BaseMember(b) == Member(b[1], b[2], b[3], b[4], "mid", "max", 1, "none", "lt", b[3], b[5], 0, "chacha")
@@ -116,8 +119,8 @@ FamPromise ==
   UNION { { One([mb EXCEPT !.v.proms[j] = Prom(pc, mb.vals[j], mb.n)], "VerifyOnly") :
               j \in 1..mb.m, pc \in {"none", "zero", "lt", "eq", "gt", "max", "over", "umax"} } :
           mb \in { Member(n, t, m, m, "mid", vs, js, pb, ps, js, 0, 0, "chacha") :
-                     n \in (IF Quick THEN {2, 8, 64} ELSE AllN), t \in {1, 2}, m \in {1, 2, 4}, js \in {1, 2, 4},
-                     vs \in {"zero", "one", "max"}, pb \in {"none", "zero"}, ps \in {"none", "zero", "lt", "eq"} } }
+                     n \in (IF Quick THEN {2, 64} ELSE AllN), t \in (IF Quick THEN {1} ELSE {1, 2}), m \in {1, 2, 4}, js \in (IF Quick THEN {1, 4} ELSE {1, 2, 4}),
+                     vs \in {"zero", "one", "max"}, pb \in (IF Quick THEN {"none"} ELSE {"none", "zero"}), ps \in {"none", "zero", "lt", "eq"} } }
 
 (***************************************************************************************************)
 (* batch (C03): verdict == conjunction, alignment, shape refusals, beyond the chunk limit            *)
@@ -151,8 +154,8 @@ FamBatch ==
       Good(l) == l.a <= l.k /\ l.b <= l.k /\ (l.b = 0 \/ l.a < l.b) /\ (l.a = 0 => (l.b = 0 /\ l.ka = "xs")) /\ (l.b = 0 => l.kb = "xs")
       Mem(l, nt) == [x \in 1..l.k |-> Kind(nt[1], nt[2], IF x = l.a THEN l.ka ELSE IF x = l.b THEN l.kb ELSE Pattern(l.pt, x))]
       Sk == IF Quick THEN {NoSkew, <<0, 1, 0>>, <<0, 0, -1>>, <<1, 0, 0>>} ELSE {s \in {-1, 0, 1} \X {-1, 0, 1} \X {-1, 0, 1} : TRUE}
-  IN  { Scen(Mem(l, nt), mode, NoSkew, FALSE) : l \in {l \in Lay : Good(l)}, nt \in NT, mode \in {"VerifyOnly", "RecoverAndVerify"} }
-  \cup { Scen(Mem([k |-> k, pt |-> 2, a |-> 0, ka |-> "xs", b |-> 0, kb |-> "xs"], <<4, 1>>), "VerifyOnly", sk, FALSE) : k \in {1, 2, MaxBatch + 1}, sk \in Sk }
+  IN  { ScenF(Mem(l, nt), mode, NoSkew, FALSE, <<Kind(nt[1], nt[2], "v1")>>) : l \in {l \in Lay : Good(l)}, nt \in NT, mode \in {"VerifyOnly", "RecoverAndVerify"} }
+  \cup { ScenF(Mem([k |-> k, pt |-> 2, a |-> 0, ka |-> "xs", b |-> 0, kb |-> "xs"], <<4, 1>>), "VerifyOnly", sk, FALSE, <<Kind(4, 1, "v1")>>) : k \in {1, 2, MaxBatch + 1}, sk \in Sk }
 
 (***************************************************************************************************)
 (* recover (C09, C10): seeds x modes x valid/invalid, batch compositions                             *)
